@@ -153,10 +153,18 @@ func randCavOf(r *rng.R, kind string, depth int, now m.T) m.Cav {
 		c.B1 = &b
 	case "CUnregistered":
 		c.ID = uint64(200 + r.Intn(3))
+		if unregAnyType && r.P(1, 3) {
+			// an unknown caveat may carry ANY type number, also one that another binary registers (an attestation's, say)
+			c.ID = rng.Pick(r, []uint64{1, 12, 13, 22, 23, 24, 25, 26, 31})
+		}
 		c.Body = [][]byte{{0xc0}, {0x01}, {0x92, 0x01, 0xa1, 'x'}, {0x81, 0xa1, 'k', 0x05}, {0xc4, 0x01, 0xff}}[r.Intn(5)]
 	}
 	return c
 }
+
+// unregAnyType lets unknown caveats carry type numbers that this binary registers (the clearing layer builds such values
+// directly); the codec streams turn it off because there the value has to survive an encode/decode in this binary
+var unregAnyType = true
 
 func randCav(r *rng.R, depth int, now m.T) m.Cav {
 	if r.P(1, 7) {
